@@ -296,7 +296,7 @@ fn rand_job<K: VKind>(seed: u64, cases: u32, rep: &mut Report) {
 pub fn run(cfg: &Cfg) -> i32 {
     let start = Instant::now();
     let checks = Checks { canon: true, structure: true, rc: false, node_count: true };
-    if let Some(path) = &cfg.replay {
+    if let Some(path) = cfg.replay.as_ref().filter(|p| replay_case_is(p, |c| c["ops"].is_array() && c["cfg"].is_object())) {
         let v: serde_json::Value = serde_json::from_str(&std::fs::read_to_string(path).expect("replay file")).expect("json");
         let case = &v["case"];
         let r = match case["kind"].as_str().unwrap_or("") {
@@ -317,6 +317,20 @@ pub fn run(cfg: &Cfg) -> i32 {
     }
     let mut jobs: Vec<Box<dyn FnMut(&mut dyn Write) + '_>> = vec![];
     let mut names = vec![];
+    for (k, salt) in [("i64", 1u64), ("f64", 2)] {
+        let seed = mix(cfg.seed ^ (0xc10_700 + salt));
+        let cases = cfg.t(400, 6000);
+        names.push(format!("wide-eval/{k}"));
+        jobs.push(Box::new(move |w: &mut dyn Write| {
+            let mut rep = Report::default();
+            if salt == 1 {
+                crate::c02w::wide_val::<MtI64K>("C10", seed, cases, &mut rep);
+            } else {
+                crate::c02w::wide_val::<MtF64K>("C10", seed, cases, &mut rep);
+            }
+            rep.emit(w);
+        }));
+    }
     names.push("scalar".to_string());
     jobs.push(Box::new(|w: &mut dyn Write| {
         let mut rep = Report::default();
@@ -396,7 +410,7 @@ pub fn run(cfg: &Cfg) -> i32 {
         &total,
         Meta {
             level: "exploration",
-            rule: "scalars: every ordered pair of 20 I64 / 18 F64 boundary values x {add,sub,mul,div} + comparison, against exact i128 arithmetic (I64) resp. IEEE with NaN/-0 normalised (F64). Functions: all 625x625 pairs of 2-variable value tables over 5-value palettes x 6 operators, ite with every 0-1-valued condition, restrict with every cube, under both orders; random tables over 1..4 variables with boundary-heavy values (each operator followed by another operator on the same operands); proptest histories (constants, vars, arithmetic, ite, restrict, gc, reorder, add_vars, BinPair) with table comparison, canonicity and structure audit after every step. Oracle: pointwise lifting of the scalar reference. Non-trivial = scalar pair whose exact result leaves i64 / yields NaN or zero; function pair with a shortcut constant (0, 1, NaN) against a non-constant function; history with two operators on the same operands.",
+            rule: "scalars: every ordered pair of 20 I64 / 18 F64 boundary values x {add,sub,mul,div} + comparison, against exact i128 arithmetic (I64) resp. IEEE with NaN/-0 normalised (F64). Functions: all 625x625 pairs of 2-variable value tables over 5-value palettes x 6 operators, ite with every 0-1-valued condition, restrict with every cube, under both orders; random tables over 1..4 variables with boundary-heavy values (each operator followed by another operator on the same operands); proptest histories (constants, vars, arithmetic, ite, restrict, gc, reorder, add_vars, BinPair) with table comparison, canonicity and structure audit after every step. Oracle: pointwise lifting of the scalar reference. Non-trivial = scalar pair whose exact result leaves i64 / yields NaN or zero; function pair with a shortcut constant (0, 1, NaN) against a non-constant function; history with two operators on the same operands. Wide managers: 9..200 variables (incl. 63/64/65/127/128/129) under random orders, random expressions over <= 4 variables that include the bottom level, block-boundary levels and the largest variable number; eval() with shuffled complete argument lists, repeated variables (the last value counts), and lists omitting a support variable (documented default: false) must give the expression's value under the model.",
             assumptions: vec!["finite / +-inf = 0 (IEEE convention; the property is silent on it)".into(), "inf / 0 takes the sign of the infinity".into()],
             extra: json!({}),
         },
